@@ -340,7 +340,7 @@ static std::string ledger_check(const LedgerIn &L, const std::vector<std::vector
 
 static long plan_C03(const std::string &tier) {
   if (is_prod()) return tier == "quick" ? 2 : 8;
-  return tier == "quick" ? 400 * 30 : 5000 * 300;
+  return tier == "quick" ? 400 * 60 : 5000 * 300;
 }
 
 static void gen_sched_cfg(const std::string &tier, uint64_t seed, long idx, Scn &s, const char *prop, int K) {
@@ -363,8 +363,8 @@ static void gen_sched_cfg(const std::string &tier, uint64_t seed, long idx, Scn 
   if (std::string(prop) == "C14" && gs.chance(0.5)) s.i["st1"] = simsched::ST_HOOKBIAS;
   if (is_prod()) { s.i["st1"] = simsched::ST_STICKY; s.i["sp1"] = 9999; }
 }
-static void gen_C03(const std::string &tier, uint64_t seed, long idx, Scn &s) { gen_sched_cfg(tier, seed, idx, s, "C03", tier == "quick" ? 30 : 300); }
-static void gen_C14(const std::string &tier, uint64_t seed, long idx, Scn &s) { gen_sched_cfg(tier, seed, idx, s, "C14", tier == "quick" ? 30 : 300); }
+static void gen_C03(const std::string &tier, uint64_t seed, long idx, Scn &s) { gen_sched_cfg(tier, seed, idx, s, "C03", tier == "quick" ? 60 : 300); }
+static void gen_C14(const std::string &tier, uint64_t seed, long idx, Scn &s) { gen_sched_cfg(tier, seed, idx, s, "C14", tier == "quick" ? 60 : 300); }
 
 struct Explored {
   bool skipped = false;
@@ -675,25 +675,26 @@ static Verdict run_C18(const Scn &s) {
   }
   bool all_slot0 = true;
   for (int st = 0; st < T; st++) if (memcmp(riv[st].data(), &F[48], 16) != 0) all_slot0 = false;
-  bool distinct = true;
-  int da = -1, db = -1;
-  for (int a = 0; a < T && distinct; a++)
-    for (int b = a + 1; b < T; b++)
-      if (riv[a] == riv[b]) { distinct = false; da = a; db = b; break; }
-  if (!distinct) {
-    Verdict x = viol("streams-share-iv", "cipher streams " + std::to_string(da) + " and " + std::to_string(db) + " were started from the same IV " + hexs(riv[da]) +
-                                             (cm == 2 || cm == 4 ? " (keystream reuse: C_i^C_j == P_i^P_j on their first chunks)" : ""));
-    x.sig = all_slot0 ? "all-streams-start-from-header-iv-slot-0" : "";
+  auto V = [&](const std::string &c, const std::string &d, const std::string &sig) {
+    Verdict x = viol(c, d);
+    x.sig = sig;
     x.trace_hash = v.trace_hash;
     x.case_hash = v.case_hash;
+    x.nontrivial = v.nontrivial;
     return x;
-  }
-  // each recovered IV must be one of the header's slots (seed dependent by the chain)
+  };
+  // each recovered IV must be one of the header's slots (seed dependent through the SHA-1 chain)
   for (int st = 0; st < T; st++) {
     bool found = false;
     for (int a = 0; a < T; a++) if (memcmp(riv[st].data(), &F[48 + 20 * a], 16) == 0) found = true;
-    if (!found) return viol("iv-not-from-header", "stream " + std::to_string(st) + " started from an IV that is none of the header's IV fields");
+    if (!found) return V("iv-not-from-header", "stream " + std::to_string(st) + " started from an IV that is none of the header's IV fields", "");
   }
+  for (int a = 0; a < T; a++)
+    for (int b = a + 1; b < T; b++)
+      if (riv[a] == riv[b])
+        return V("streams-share-iv", "cipher streams " + std::to_string(a) + " and " + std::to_string(b) + " were started from the same IV " + hexs(riv[a]) +
+                                         (cm == 2 || cm == 4 ? " (keystream reuse: C_i^C_j == P_i^P_j on their first chunks)" : ""),
+                 all_slot0 ? "all-streams-start-from-header-iv-slot-0" : "");
   // consequences stated by the property
   if (cm == 2 || cm == 4) {
     for (int a = 0; a < T; a++)
@@ -701,11 +702,11 @@ static Verdict run_C18(const Scn &s) {
         bool same = true;
         for (int k = 0; k < 16; k++)
           if ((F[hs + a * CH + k] ^ F[hs + b * CH + k]) != (PP[a * CH + k] ^ PP[b * CH + k])) same = false;
-        if (same) return viol("keystream-reuse", "first blocks of streams " + std::to_string(a) + "," + std::to_string(b) + ": C_i^C_j == P_i^P_j");
+        if (same) return V("keystream-reuse", "first blocks of streams " + std::to_string(a) + "," + std::to_string(b) + ": C_i^C_j == P_i^P_j", "");
       }
   }
   if (s.geti("ptype") == 2 && nchunks >= 2 && PP.size() >= 2 * CH) {
-    if (memcmp(&F[hs], &F[hs + CH], CH) == 0) return viol("equal-chunks-equal-ciphertext", "equal plaintext chunks 0 and 1 gave equal ciphertext chunks");
+    if (memcmp(&F[hs], &F[hs + CH], CH) == 0) return V("equal-chunks-equal-ciphertext", "equal plaintext chunks 0 and 1 gave equal ciphertext chunks", "");
   }
   return v;
 }
